@@ -16,7 +16,7 @@
    Not modelled: parsed_/preserveParsed_ (a copy of the consumed bytes kept for
    on_unsupported_protocol; it does not influence the parse), debugs() output,
    hackExpectsMime_ (only ever set by the response parser). *)
-Require Import SquidV.Bytes SquidV.TokModel.
+Require Import SquidV.Bytes SquidV.TokModel SquidV.Incremental.
 Require Import SquidV.gen.CharSets_gen SquidV.gen.ReqTabs_gen.
 Local Open Scope N_scope.
 
@@ -402,35 +402,24 @@ Definition fields_of (s : rst) : fields :=
   {| f_mid := r_mid s; f_mimg := r_mimg s; f_uri := r_uri s; f_http := r_http s;
      f_major := r_major s; f_minor := r_minor s; f_mime := r_mime s |}.
 
-(* outcome of one parse() call as used by ConnStateData::parseHttpRequest:
-   More  = needsMoreData(): keep = remaining() becomes inBuf and is extended by the next read;
-   Done  = parse() returned true: message fields + unconsumed bytes (body / next request);
-   Bad   = parse() returned false without needsMoreData(): parseStatusCode and the fields the
-           error path reads (method, URI, version); the caller discards the rest of its buffer *)
-Inductive outcome :=
-| More (s : rst) (keep : bytes)
-| Done (f : fields) (rest : bytes)
-| Bad (code : N) (f : fields).
+(* outcome of one parse() call as used by ConnStateData::parseHttpRequest (type res of Incremental.v):
+   More s keep = needsMoreData(): keep = remaining() becomes inBuf and is extended by the next read;
+   Done f rest = parse() returned true: message fields + unconsumed bytes (body / next request);
+   Bad (c, f)  = parse() returned false without needsMoreData(): parseStatusCode and the fields the
+                 error path reads (method, URI, version); the caller discards the rest of its buffer *)
+Definition outcome := res rst fields (N * fields).
 
 Definition step (relaxed : bool) (limit : N) (s : rst) (b : bytes) : outcome :=
   let '(ok, s1, rest) := do_parse relaxed limit s b in
   if needs_more s1 then More s1 rest
   else if ok then Done (fields_of s1) rest
-  else Bad (r_code s1) (fields_of s1).
+  else Bad (r_code s1, fields_of s1).
 
-(* the caller's read loop: append the next segment to the retained bytes, parse,
-   keep remaining(); stop as soon as the parser no longer needs data (later
-   segments stay unconsumed behind the rest) *)
-Fixpoint drive (relaxed : bool) (limit : N) (s : rst) (buf : bytes) (segs : list bytes) : outcome :=
-  match segs with
-  | [] => More s buf
-  | x :: more =>
-      match step relaxed limit s (buf ++ x) with
-      | More s1 keep => drive relaxed limit s1 keep more
-      | Done f rest => Done f (rest ++ concat more)
-      | Bad c f => Bad c f
-      end
-  end.
+(* the caller's read loop (Incremental.drive): append the next segment to the retained bytes,
+   parse, keep remaining(); stop as soon as the parser no longer needs data (later segments stay
+   unconsumed behind the rest) *)
+Definition drive (relaxed : bool) (limit : N) : rst -> bytes -> list bytes -> outcome :=
+  Incremental.drive rst fields (N * fields) (step relaxed limit).
 
 (* one-shot parse of a whole input by a fresh parser *)
 Definition parse_whole (relaxed : bool) (limit : N) (input : bytes) : outcome :=
